@@ -16,16 +16,23 @@ Require Import Celma.Common.Res Celma.ArgH.Key Celma.ArgH.Table Celma.ArgH.Lex C
 
 Record sgcfg := {
   sg_main : cfg;
-  sg_subs : list (key * cfg)        (* key of the sub-group argument, its handler *)
+  sg_subs : list (key * cfg);       (* key of the sub-group argument, its handler *)
+  sg_rules : list (bool * card)     (* per sub-group argument: setIsMandatory(), setCardinality() *)
 }.
 
 (** run-time: the main handler, the sub-group handlers, how often each
-    sub-group argument was used (its cardinality counter) *)
+    sub-group argument was used (its cardinality counter), whether it was used
+    at all (TypedArgSubGroup::mWasCalled) *)
 Record sgstate := {
   sm : hstate;
   ss : list hstate;
-  scnt : list Z
+  scnt : list Z;
+  scal : list bool
 }.
+
+(** a sub-group argument has no cardinality limit unless one is set
+    (mpCardinality.reset() in its constructor) *)
+Definition sub_rule (c : sgcfg) (j : nat) : bool * card := nth j (sg_rules c) (false, CardNone).
 
 (** the definitions: Handler::addArgument( spec, subGroup, desc) and internAddArgument refuse a key that is taken in
     either container (after "fix: the key of a sub-group argument and the key of a plain argument of the same
@@ -79,8 +86,7 @@ Definition sub_use (pinned : bool) (c : sgcfg) (st : sgstate) (ic : bool) (j : n
   (* handleIdentifiedArg( p_arg_hdl, key): notifications *)
   do p1 <- pend_identified (pend m) k;
   do g1 <- gcs_exec (gcons (sg_main c)) (gsts m) k;
-  (* a sub-group argument has no cardinality limit (mpCardinality.reset() in its constructor): only counted *)
-  do n1 <- (if ic then Ok (nth j (scnt st) 0%Z) else card_got CardNone (nth j (scnt st) 0%Z));
+  do n1 <- (if ic then Ok (nth j (scnt st) 0%Z) else card_got (snd (sub_rule c j)) (nth j (scnt st) 0%Z));
   if inv m then Err ERuntime else
   let s0 := nth j (ss st) st_nil in
   do r <- sub_take (S (msize_it cur)) cs s0 cur;
@@ -98,14 +104,14 @@ Definition sub_use (pinned : bool) (c : sgcfg) (st : sgstate) (ic : bool) (j : n
                end
              else ai in
   Ok ({| sm := {| arts := arts m; pend := p1; gsts := g1; last := None; inv := false |};
-         ss := upd (ss st) j s1; scnt := upd (scnt st) j n1 |}, ai').
+         ss := upd (ss st) j s1; scnt := upd (scnt st) j n1; scal := upd (scal st) j true |}, ai').
 
 Section Loop.
 Variable pinned : bool.
 Variable c : sgcfg.
 
 Definition lift_main (st : sgstate) (r : res (ares * hstate * it)) : res (ares * sgstate * it) :=
-  do x <- r; let '(a, m1, i1) := x in Ok (a, {| sm := m1; ss := ss st; scnt := scnt st |}, i1).
+  do x <- r; let '(a, m1, i1) := x in Ok (a, {| sm := m1; ss := ss st; scnt := scnt st; scal := scal st |}, i1).
 
 Definition step_key_sg (st : sgstate) (ic : bool) (k : key) (e : elem) (cur : it) : res (ares * sgstate * it) :=
   do r <- sub_lookup c k;
@@ -145,11 +151,29 @@ End Loop.
 Definition init_sg (c : sgcfg) (inits : list value) (sub_inits : list (list value)) : sgstate :=
   {| sm := init_state (sg_main c) inits;
      ss := map (fun p => init_state (snd (fst p)) (snd p)) (combine (sg_subs c) sub_inits);
-     scnt := map (fun _ => 0%Z) (sg_subs c) |}.
+     scnt := map (fun _ => 0%Z) (sg_subs c);
+     scal := map (fun _ => false) (sg_subs c) |}.
+
+(** ArgumentContainer::checkMandatoryCardinality for the sub-group arguments *)
+Fixpoint check_sub_rules (rules : list (bool * card)) (cnts : list Z) (cals : list bool) : res unit :=
+  match rules, cnts, cals with
+  | (m, cd) :: rr, n :: nr, b :: br =>
+      if m && negb b then Err ERuntime
+      else do _ <- card_end cd n; check_sub_rules rr nr br
+  | _, _, _ => Ok tt
+  end.
+
+(** the end of Handler::evalArguments: mandatory / cardinality of the plain arguments, then of the sub-group
+    arguments, then the pending requirements and the handler constraints *)
+Definition final_checks_sg (c : sgcfg) (st : sgstate) : res unit :=
+  do _ <- check_mandatory_card (args (sg_main c)) (arts (sm st));
+  do _ <- check_sub_rules (sg_rules c) (scnt st) (scal st);
+  do _ <- pend_check_required (pend (sm st));
+  gcs_end (arts (sm st)) (gcons (sg_main c)) (gsts (sm st)).
 
 (** Handler::evalArguments of the main handler (command line only) *)
 Definition eval_sg (pinned : bool) (c : sgcfg) (inits : list value) (sub_inits : list (list value))
     (argv : list str) : res sgstate :=
   do st <- words_sg pinned c (init_sg c inits sub_inits) false argv;
-  do _ <- final_checks (sg_main c) (sm st);
+  do _ <- final_checks_sg c st;
   Ok st.
